@@ -218,22 +218,39 @@ def h_loop_iteration(idx, conv_fix=None, fixt_fix=None, nsw=3):
     return h
 
 
-def h_base_case(nsw=2):
-    """state after init(): t = 0, niter = 0, first calc_h; then init()'s caller starts the loop at t = h"""
+def h_base_case(nsw=2, resume=False):
+    """state after init(): t = 0, niter = 0, first calc_h; then init()'s caller starts the loop at t = h.
+    resume=True: the state init_resume() builds when run() is called again with a later end time."""
     def h(I):
         from andes.routines.tds import TDS
         tds, system, cfg, S, stored, fired, conv = make_tds(I, 0, nsw, base_case=True)
-        # overwrite the pre-state with the one init() has: t = 0, nothing dispatched, switch times >= 0
-        system.dae.t = (pysym.SR(z3.RealVal(0)) if I.symbolic else np.float64(0.0))
-        tds.niter = 0
-        I.assume(LE(0, S[0]))
-        tds.solver = None
-        tds.calc_h()
+        if not resume:
+            # overwrite the pre-state with the one init() has: t = 0, nothing dispatched, switch times >= 0
+            system.dae.t = (pysym.SR(z3.RealVal(0)) if I.symbolic else np.float64(0.0))
+            tds.niter = 0
+            I.assume(LE(0, S[0]))
+            tds.solver = None
+            tds.calc_h()
+        else:
+            # a finished run: t = old end time, every event up to it dispatched; the user raised tf
+            t_old = I.real('t_old')
+            I.assume(LE(0, t_old)); I.assume(LT(t_old, cfg.tf)); I.assume(LT(t_old, S[0]))
+            system.dae.t = t_old
+            tds.solver = None
+            tds.calc_h(resume=True)
+        t_start = system.dae.t
+        out0 = [('the first step of a (resumed) run respects the fixed step size', IMPLIES(cfg.fixt, LE(tds.h, cfg.tstep))),
+                ('the first step of a (resumed) run does not pass the end time', LE(t_start + tds.h, cfg.tf))]
+        if resume:
+            system.dae.t = system.dae.t + tds.h
+            return out0 + [('resumed run starts inside the grid invariant', inv_after(tds, system, S, tds._switch_idx, t_start, nsw)),
+                           ('resuming makes progress', LT(t_start, system.dae.t)),
+                           ('resuming neither skips nor repeats an event', tds._switch_idx == 0)]
         system.dae.t = system.dae.t + tds.h       # `dae.t += self.h` is what run()/init_resume do next
         idx2 = tds._switch_idx
         out = [('first step keeps the invariant', inv_after(tds, system, S, idx2, 0.0, nsw)),
                ('no event is skipped without being dispatched at initialisation', idx2 == 0)]
-        return out
+        return out0 + out
     return h
 
 
@@ -410,6 +427,8 @@ def job(spec):
     if kind == 'base':
         return H.run('TDS.init first calc_h', h_base_case(), timeout_ms=20000, region=region_of,
                      known_regions={'event scheduled exactly at t0 is skipped': z3.Real('s0') == 0})
+    if kind == 'resume':
+        return H.run('TDS.init_resume first calc_h', h_base_case(resume=True), timeout_ms=20000, region=region_of)
     if kind == 'exit':
         return H.run('TDS.run loop exit + epilogue', h_exit(), region=region_of)
     if kind == 'exitb':
@@ -453,7 +472,7 @@ def main():
               'store_switch_times: distinct event times are more than 3*eps apart')
     ck.out('TimeSeries.apply_exact', 'quasi-real-time sleeping', 'events refreshed during the run (refresh_event=1)',
            'csv replay mode')
-    jobs = [('iter', (k, cv, fx)) for k in range(4) for cv in (True, False) for fx in (True, False)] + [('base', 0), ('exit', 0), ('exitb', 0), ('sst', 0), ('toggle', 0), ('fault', 0)] \
+    jobs = [('iter', (k, cv, fx)) for k in range(4) for cv in (True, False) for fx in (True, False)] + [('base', 0), ('resume', 0), ('exit', 0), ('exitb', 0), ('sst', 0), ('toggle', 0), ('fault', 0)] \
         + [('alter', m) for m in ('+', '-', '*', '/', '=')]
     res = core.pmap(job, jobs)
     ck.merge(res)
